@@ -205,3 +205,22 @@ while True:
     f2(3)
     yield_()
 """, opts={})
+raw("FX-D38-bool-constant-propagated", "C09", {"kind": "program", "src": {"": HDR + "g0 = 0\ndef f1(p10, p11):\n    v1 = (-p10)\n    db.Setting = v1 + p10\nv3 = (g0 < g0)\nf1(v3, g0)\nd1.Setting = v3\n"}, "opts": {}})
+prog("D39-nested-loops", "C04", """
+def f0(p00, p01):
+    c1 = 0
+    while c1 < 2:
+        c1 += 1
+        c2 = 0
+        while c2 < 2:
+            c2 += 1
+            stack[3] = p00
+        c3 = 0
+        while c3 < 2:
+            c3 += 1
+            stack[3] = max(stack[3], (select(p01 < stack[3], p01, 0) / 2))
+    return p01
+while True:
+    db.Setting = f0(0, f0(0, 0))
+    yield_()
+""", opts={})
